@@ -75,8 +75,42 @@ def balanced(poolname, maxr, maxp, limit, seed):
     return out
 
 
-def cases(thorough, seed):
+FORMAT_LIMITS = {"umist": (2, 4), "kida": (3, 5), "leeds": (3, 5), "uclchem": (3, 4), "naunet": (3, 5)}  # reactant / product columns
+TWO_BODY_CODE = {"kida": 3, "umist": "NN", "leeds": 1, "uclchem": "", "naunet": 100}
+
+
+def file_cases(thorough, seed):
+    """the same balanced reactions written in each input format (every reactant and product column used by some
+    of them) and read by the real parsers"""
+    from . import encoders
+
     out = []
+    pool = POOLS["HCO"]
+    rnd = random.Random(977 + seed)
+    for fmt, (maxr, maxp) in FORMAT_LIMITS.items():
+        rs = balanced("HCO", min(maxr, 3), maxp, 10**9, seed)
+        full = [x for x in rs if len(x[1]) == maxp]
+        rest = [x for x in rs if len(x[1]) < maxp]
+        pick = rnd.sample(full, min(len(full), 14 if not thorough else 60)) + rnd.sample(rest, min(len(rest), 40 if not thorough else 200))
+        lines = []
+        for k, (r, p_) in enumerate(pick):
+            names = lambda xs: [("E-" if x == "e-" else x.upper()) if fmt == "uclchem" else x for x in xs]
+            lit = (lambda v: v) if fmt != "leeds" else (lambda v: {"1.0e-10": "1.00E-10", "0.0": "0.00", "0.0c": "0.0"}[v])
+            lines.append({"reactants": names(r), "products": names(p_), "a": lit("1.0e-10"), "b": lit("0.0"), "c": "0.0", "tmin": "10" if fmt != "uclchem" else "0", "tmax": "41000" if fmt != "uclchem" else "0", "idx": k + 1, "code": TWO_BODY_CODE[fmt]})
+        text = "\n".join(encoders.ENC[fmt](l) for l in lines) + "\n"
+        net = {"filelist": f"bal.{fmt}", "fileformats": fmt}
+        if fmt == "uclchem":
+            net.update({"elements": ["E", "H", "C", "O"], "pseudo_elements": ["CR", "CRP", "PHOTON", "CRPHOT"]})
+        c = Case(f"BALF-{fmt}", {"files": [{"name": f"bal.{fmt}", "content": text}], "network": net}, tags={"balanced"})
+        c.composition = {c.canon(n): v for n, v in pool.items()}
+        if fmt == "uclchem":
+            c.composition.update({c.canon(n.upper() if n != "e-" else "E-"): v for n, v in pool.items()})
+        out.append(c)
+    return out
+
+
+def cases(thorough, seed):
+    out = file_cases(thorough, seed)
     for pn in POOLS:
         maxr, maxp, lim = (3, 4, 1500) if thorough else (2, 3, 400)
         rs = balanced(pn, maxr, maxp, lim, seed)
